@@ -44,6 +44,7 @@ func runC15(c *Config, r *Report) {
 	c15R3(ic, r, "R15.3")
 	c15R4(ic, r)
 	c15R5(ic, r)
+	c15R13(ic, r)
 	c15R6(ic, r)
 	c15R7(ic, r)
 	c15R8(ic, r)
@@ -295,6 +296,45 @@ func c15R2(ic *IC, r *Report) {
 					j = -1
 				}
 			}
+			// ... and by a test that the declaration has no receiver: a method named init is not an
+			// init function (round-5 seed)
+			noRecv := false
+			for j := len(p) - 1; j >= 0; j-- {
+				if _, isLit := p[j].(*ast.FuncLit); isLit {
+					break
+				}
+				g, ok := p[j].(*ast.IfStmt)
+				if !ok || condHasOr(g.Cond) {
+					continue
+				}
+				ast.Inspect(g.Cond, func(k ast.Node) bool {
+					switch e := k.(type) {
+					case *ast.BinaryExpr:
+						if e.Op == token.EQL {
+							if c, ok := unparen(e.X).(*ast.CallExpr); ok {
+								if id := identOf(c.Fun); id != nil && id.Name == "len" && len(c.Args) == 1 {
+									if tv, ok := ic.Info.Types[e.Y]; ok && tv.Value != nil && tv.Value.ExactString() == "0" {
+										if v := selField(ic.Info, c.Args[0]); v != nil && v.Name() == "child" {
+											noRecv = true
+										}
+									}
+								}
+							}
+						}
+					case *ast.UnaryExpr:
+						if e.Op == token.NOT {
+							if c, ok := unparen(e.X).(*ast.CallExpr); ok {
+								if f, ok := calleeOf(ic.Info, c).(*types.Func); ok && f.Pkg() == ic.Pk.Types && f.Name() == "isMethod" {
+									noRecv = true
+								}
+							}
+						}
+					}
+					return true
+				})
+			}
+			r.Check(!(okAppend && guarded) || noRecv, "R15.2", key+"/no-receiver", ic.pos(as.Pos()), "only a declaration without receiver is an init function",
+				"the per-file compile pass takes every function declaration named init for an init function, methods included (no test that the receiver list is empty guards "+types.ExprString(as.Rhs[i])+"): func (T) init() is started, with a zero receiver, among the init functions of the package")
 			r.Check(okAppend && guarded, "R15.2", key, ic.pos(as.Pos()), "append of an init function",
 				"the per-file compile pass stores "+types.ExprString(as.Rhs[i])+" into the start list "+map[bool]string{true: "outside a test of the function name against \"init\"", false: "not by appending one node"}[okAppend]+": with several files the start list is the concatenation of the per-file lists, so anything but init functions in source order (main, a reordered list) runs before the init functions of later files")
 		}
@@ -1287,4 +1327,135 @@ func c15R12(ic *IC, r *Report) {
 	if n == 0 {
 		r.Errorf("R15.12: no block resolving a selector to an interpreted method (lookupMethod result stored in node.val) found")
 	}
+}
+
+func init() {
+	ruleText["R15.13"] = "the dependency collector resolves by name only what can name a package variable: it skips the blank identifier (all blanks share one symbol), the field names of a struct literal, and walks a function literal of the initialiser with the symbols cfg resolved (its locals shadow package variables)"
+}
+
+// c15R13: three positive clauses on the by-name resolution of the collector. Outside declared
+// function bodies the collector looks identifiers up by name in the package scope; a name that
+// cannot denote a package variable there creates a false edge: an order different from Go's, or
+// a "variable definition loop" for a valid program. Found D60 (blank), D61 (field names), D62
+// (locals of a function literal).
+func c15R13(ic *IC, r *Report) {
+	fi := ic.fn(r, "getVarDependencies")
+	if fi == nil {
+		return
+	}
+	info := ic.Info
+	identFld := ic.field("node", "ident")
+	kindFld := ic.field("node", "kind")
+	ancFld := ic.field("node", "anc")
+	if identFld == nil || kindFld == nil || ancFld == nil {
+		r.Errorf("anchor not resolved: node.ident / node.kind / node.anc")
+		return
+	}
+	// by-name lookups: calls of (*scope).lookup with an argument selecting node.ident
+	var lookups []*ast.CallExpr
+	ast.Inspect(fi.Decl.Body, func(n ast.Node) bool {
+		c, ok := n.(*ast.CallExpr)
+		if !ok {
+			return true
+		}
+		f, ok := calleeOf(info, c).(*types.Func)
+		if !ok || f.Name() != "lookup" || f.Pkg() != ic.Pk.Types {
+			return true
+		}
+		for _, a := range c.Args {
+			if selField(info, a) == identFld {
+				lookups = append(lookups, c)
+			}
+		}
+		return true
+	})
+	if len(lookups) == 0 {
+		r.Errorf("R15.13: no by-name lookup (scope.lookup(n.ident)) found in getVarDependencies")
+		return
+	}
+	skips := func(ifs *ast.IfStmt) bool { // the body leaves the callback without resolving
+		if len(ifs.Body.List) == 0 {
+			return false
+		}
+		_, isRet := ifs.Body.List[len(ifs.Body.List)-1].(*ast.ReturnStmt)
+		return isRet
+	}
+	blankAt, keyAt, litAt := token.NoPos, token.NoPos, token.NoPos
+	ast.Inspect(fi.Decl.Body, func(n ast.Node) bool {
+		ifs, ok := n.(*ast.IfStmt)
+		if !ok || !skips(ifs) {
+			return true
+		}
+		ast.Inspect(ifs.Cond, func(k ast.Node) bool {
+			switch e := k.(type) {
+			case *ast.BinaryExpr:
+				if e.Op != token.EQL {
+					return true
+				}
+				for _, side := range [][2]ast.Expr{{e.X, e.Y}, {e.Y, e.X}} {
+					if selField(info, side[0]) == identFld {
+						if tv, ok := info.Types[side[1]]; ok && tv.Value != nil && tv.Value.ExactString() == `"_"` && !condHasOr(ifs.Cond) {
+							blankAt = ifs.Pos()
+						}
+					}
+					if se, ok := unparen(side[0]).(*ast.SelectorExpr); ok && selField(info, se) == kindFld {
+						if id := identOf(side[1]); id != nil {
+							if c, ok := info.ObjectOf(id).(*types.Const); ok {
+								if c.Name() == "keyValueExpr" && selField(info, se.X) == ancFld {
+									// together with a struct test in the same condition
+									hasStruct := false
+									ast.Inspect(ifs.Cond, func(q ast.Node) bool {
+										if id, ok := q.(*ast.Ident); ok && (id.Name == "isStruct" || id.Name == "structT") {
+											hasStruct = true
+										}
+										return true
+									})
+									if hasStruct && !condHasOr(ifs.Cond) {
+										keyAt = ifs.Pos()
+									}
+								}
+								if c.Name() == "funcLit" && selField(info, se.X) != ancFld {
+									// the body re-enters the walk with the constant true
+									for _, call := range allCalls(ifs.Body) {
+										if _, isVar := calleeOf(info, call).(*types.Var); !isVar {
+											continue
+										}
+										for _, a := range call.Args {
+											if tv, ok := info.Types[a]; ok && tv.Value != nil && tv.Value.ExactString() == "true" {
+												litAt = ifs.Pos()
+											}
+										}
+									}
+								}
+							}
+						}
+					}
+				}
+			case *ast.CallExpr:
+				if f, ok := calleeOf(info, e).(*types.Func); ok && f.Name() == "isBlank" && !condHasOr(ifs.Cond) {
+					blankAt = ifs.Pos()
+				}
+			}
+			return true
+		})
+		return true
+	})
+	first := lookups[0].Pos()
+	for _, l := range lookups {
+		if l.Pos() < first {
+			first = l.Pos()
+		}
+	}
+	at := func(p token.Pos) string {
+		if p == token.NoPos {
+			return ic.pos(first)
+		}
+		return ic.pos(p)
+	}
+	r.Check(blankAt != token.NoPos && blankAt < first, "R15.13", "getVarDependencies/skip:blank-identifier", at(blankAt), "the blank identifier is never looked up by name",
+		"the dependency collector looks up every identifier of a declaration by name ("+ic.pos(first)+") without first excluding the blank identifier: all blank variables share the symbol \"_\", whose declaration node is the last var _ = ..., so every var _ depends on the last one: var _ = f(1); var _ = f(2); var _ = f(3) initialises 3 1 2")
+	r.Check(keyAt != token.NoPos && keyAt < first, "R15.13", "getVarDependencies/skip:struct-literal-field-name", at(keyAt), "the field names of a struct literal are never looked up by name",
+		"the dependency collector looks up the keys of a keyed struct literal by name in the package scope: var a = T{b: 1}; var b = a.b is reported as a variable definition loop")
+	r.Check(litAt != token.NoPos && litAt < first, "R15.13", "getVarDependencies/function-literal-uses-resolved-symbols", at(litAt), "a function literal of the initialiser is walked with the symbols resolved by cfg",
+		"the dependency collector looks up the identifiers of a function literal of the initialiser by name in the package scope: its parameters and locals are taken for the package variables of the same name (var a = func() int { b := 1; return b }(); var b = a is reported as a variable definition loop)")
 }
